@@ -117,3 +117,12 @@ impl Decimal {
     #[verifier::external_body]
     pub fn cmp(&self, o: &Decimal) -> (r: core::cmp::Ordering) ensures r == real_cmp(self@, o@) { unimplemented!() }
 }
+
+// rust_decimal: Decimal::default() is zero
+impl Default for Decimal { #[verifier::external_body] fn default() -> (r: Self) ensures r@ == 0real { unimplemented!() } }
+
+// core::mem::take: returns the value, leaves T::default() behind (for Decimal: zero)
+pub uninterp spec fn vx_default_of<T>() -> T;
+pub assume_specification<T: Default>[ core::mem::take::<T> ](dest: &mut T) -> (r: T)
+    ensures r == *old(dest), *final(dest) == vx_default_of::<T>();
+pub broadcast axiom fn axiom_decimal_default() ensures (#[trigger] vx_default_of::<Decimal>())@ == 0real;
